@@ -136,7 +136,7 @@ theorem LocOk.create {d : Disk} {k : Key} {loc : Loc} (h : LocOk d k loc) (fid :
 theorem write_roll (cfg : Cfg) (s : St) (r : Rec) (hroll : s.written + r.len > cfg.maxFile) :
     write cfg s r =
       ({ s with disk := { data := (AL.set (s.active + 1) [] (AL.set s.active (dataOf s.disk s.active ++ [r]) s.disk.data)),
-                          hint := s.disk.hint },
+                          hint := s.disk.hint, tails := s.disk.tails },
                 written := 0, active := s.active + 1,
                 stats := updStat s.stats s.active (fun st => if r.val.isSome then st.addLive else st.addDead r.len) },
        { fid := s.active, pos := fileSize (dataOf s.disk s.active), len := r.len, ts := r.ts },
